@@ -97,6 +97,24 @@ def strip_quals(text):
     return [t for t in toks if t not in drop]
 
 
+_mu_uid = [0]
+
+
+def methods_union_source():
+    """accessor API of a UnionRef that declares `_methods` with pointer arguments: the generated dispatch function forwards pointers
+    into object memory (not part of the Lean generator model: oracle + exact-text tie of the specialiser only)"""
+    xo = common.import_xobjects()
+    _mu_uid[0] += 1
+    u = _mu_uid[0]
+    A = type(xo.Struct)(f"MuA{u}", (xo.Struct,), {"length": xo.Float64})
+    B = type(xo.Struct)(f"MuB{u}", (xo.Struct,), {"k": xo.Float64[:]})
+    U = type(xo.UnionRef)(f"MuU{u}", (xo.UnionRef,), {"_reftypes": (A, B), "_methods": [
+        xo.Method(c_name="track", args=[xo.Arg(xo.Float64, pointer=True, name="x"), xo.Arg(xo.Float64, pointer=True, const=True, name="px"),
+                                        xo.Arg(xo.Int64, name="n")], ret=None),
+        xo.Method(c_name="probe", args=[xo.Arg(xo.Int8, pointer=True, name="flags")], ret=xo.Arg(xo.Float64))]})
+    return capi.impl_source(U)
+
+
 def run_text(tier, seed, fails, mism, tags, samples, api_types=None):
     """tie: exact specialised text; also the C15/C16 text-level oracles on the real output"""
     common.import_xobjects()
@@ -107,7 +125,11 @@ def run_text(tier, seed, fails, mism, tags, samples, api_types=None):
     with common.scratch_cwd() as tmp:
         for i in range(n):
             files = {}
-            if i % 4 == 0:
+            if i == 0 and api_types is None:
+                src = methods_union_source()
+                kind = "api"
+                tags["spec.api.union-with-methods"] += 1
+            elif i % 4 == 0:
                 t = (api_types or capi.gen_types(r, 1))[0] if api_types is None else api_types[i // 4 % len(api_types)]
                 src = capi.impl_source(T.build(t, {}))
                 kind = "api"
@@ -169,6 +191,9 @@ def text_oracles(src, files, outs, kind, fails, tags):
             tags["oracle.passthrough"] += 1
             if o != "\n".join(in_lines):
                 fails.append(common.Failure("oracle", "C16:passthrough", f"unannotated source {src[:120]!r} changed for {t}: {o[:120]!r}", ctx))
+        if any(p in o for p in PLACEHOLDERS):
+            # the placeholders are rendered in the WHOLE text handed to the compiler, included files too
+            fails.append(common.Failure("oracle", "C15:placeholder-left", f"placeholder left in the {t} form of {src[:120]!r} (files {list(files)})", ctx))
         if plain and kind == "api":
             # only the placeholders may differ: qualifier-erased tokens are those of the cpu form
             tags["oracle.api-same-tokens"] += 1
